@@ -7,6 +7,7 @@ import (
 	"fmt"
 	"math/rand"
 	"os"
+	"regexp"
 	"strings"
 	"sync"
 
@@ -73,6 +74,21 @@ func buildSlots() []slot {
 					operand = 100
 				}
 				out = append(out, slot{ep, key + "-key-" + op, func(v string) query.Builder { return opBuilder(op, key+"["+v+"]", operand) }})
+			}
+		}
+	}
+	// the key itself: what follows a key the endpoint knows, and a key made of the client string alone
+	wholeKeys := map[string][]string{
+		"accounts":     {"address", "metadata", "balance", ""},
+		"transactions": {"reference", "timestamp", "id", "account", "metadata", ""},
+		"logs":         {"date", "id", ""},
+		"balances":     {"address", "metadata", ""},
+	}
+	for _, ep := range []string{"accounts", "transactions", "logs", "balances"} {
+		for _, prefix := range wholeKeys[ep] {
+			for _, op := range []string{"$match", "$lt"} {
+				prefix, op := prefix, op
+				out = append(out, slot{ep, "whole-key-after-" + prefix + "-" + op, func(v string) query.Builder { return opBuilder(op, prefix+v, "x") }})
 			}
 		}
 	}
@@ -303,6 +319,8 @@ func codepoints(s string) []int {
 	return out
 }
 
+var reDollarTag = regexp.MustCompile(`\$[A-Za-z_][A-Za-z_0-9]*\$|\$\$`)
+
 func runeString(cps []int) string {
 	var sb strings.Builder
 	for _, c := range cps {
@@ -358,6 +376,31 @@ func modeSQLShape(in, out, stats string, sampleN int, seed int64) {
 		for _, s := range slots {
 			n++
 			jobs = append(jobs, job{c, s, n, rng.Intn(total) < sampleN})
+		}
+	}
+	// second pass: if the statements the store sends quote anything with dollar tags, the tags they use
+	// become values too (a first pass over a few harmless values finds them)
+	tags := map[string]bool{}
+	for _, s := range slots {
+		sv, _ := record(s, "aa", true)
+		for _, q := range sv {
+			for _, m := range reDollarTag.FindAllString(q, -1) {
+				tags[m] = true
+			}
+		}
+	}
+	for tag := range tags {
+		for _, payload := range []string{tag, "x" + tag + " or 1=1 --", tag + tag} {
+			v := []int{}
+			h := []int{}
+			for _, r := range payload {
+				v = append(v, int(r))
+				h = append(h, 97)
+			}
+			for _, s := range slots {
+				n++
+				jobs = append(jobs, job{vcase{V: v, H: h}, s, n, false})
+			}
 		}
 	}
 	results := make([]result, len(jobs))
